@@ -2064,13 +2064,13 @@ fn split_unsigned_range(
                 ranges.push(Ctor::UnsignedInclusiveRange(
                     ty,
                     range[0] as u64 + 1,
-                    range[1] as u64 - 1,
+                    (range[1] - 1) as u64,
                 ));
             } else {
                 ranges.push(Ctor::UnsignedInclusiveRange(
                     ty,
                     range[0] as u64,
-                    range[1] as u64 - 1,
+                    (range[1] - 1) as u64,
                 ));
             }
         }
